@@ -863,6 +863,69 @@ def run_paste(ctx, case, res):
 
 
 # ---------------------------------------------------------------------------
+# short-circuit family: an operand that is NOT evaluated may divide by zero (well-formed; g++ -E accepts it)
+# ---------------------------------------------------------------------------
+
+def shortcircuit_units():
+    """(form, defines, condition text, expected truth)"""
+    out = []
+    zs = [("lit", [], "0"), ("macro", ["#define ZN 0"], "ZN"), ("undef-ident", [], "zu_c09"),
+          ("macro-expr", ["#define ZN (3 - 3)"], "ZN")]
+    for zk, defs, z in zs:
+        for op in ("/", "%"):
+            bad = "(100 %s %s)" % (op, z)
+            o = "div" if op == "/" else "mod"
+            add = lambda form, cond, exp: out.append(("%s:%s:%s" % (form, o, zk), defs, cond, exp))
+            add("or-true-lhs", "1 || %s" % bad, True)
+            add("or-guard", "%s == 0 || %s > 3" % (z, bad), True)
+            add("or-nested", "(0 || 1) || (%s || 0)" % bad, True)
+            add("or-value", "(2 || %s) == 1" % bad, True)
+            add("and-false-lhs", "0 && %s" % bad, False)
+            add("and-guard", "%s != 0 && %s > 3" % (z, bad), False)
+            add("and-value", "(0 && %s) == 0" % bad, True)
+            add("and-in-or", "1 || (0 && %s)" % bad, True)
+            add("or-in-and", "0 && (1 || %s)" % bad, False)
+            add("not-and", "!(0 && %s)" % bad, True)
+            add("cond-else-skipped", "(1 ? 2 : %s) == 2" % bad, True)
+            add("cond-then-skipped", "(0 ? %s : 5) == 5" % bad, True)
+            add("cond-nested", "(1 ? (0 ? %s : 7) : %s) == 7" % (bad, bad), True)
+            add("cond-in-or", "1 || (1 ? %s : 0)" % bad, True)
+            add("cond-guard", "(%s ? 100 %s %s : 9) == 9" % (z, op, z), True)
+            add("or-then-arith", "(1 || %s) + 1 == 2" % bad, True)
+    return out
+
+
+def run_shortcircuit(ctx, case, res):
+    d = ctx.casedir(case["id"])
+    incs = setup_incs(d)
+    units = shortcircuit_units()
+    for where in ("if", "elif"):
+        secs = []
+        for j, (form, defs, cond, exp) in enumerate(units):
+            lines = ["#undef ZN"] + defs
+            lines += (["#if " + cond] if where == "if" else ["#if 0", "#elif " + cond])
+            lines += ["int ct_%d_t;" % j, "#else", "int ct_%d_f;" % j, "#endif"]
+            secs.append((j, lines, exp))
+        out = run_sections(d, incs, secs, "S" + where)
+        res.count("files")
+        for j, lines, exp in secs:
+            form = units[j][0]
+            o = out.get(j)
+            if o == "inconclusive":
+                res.count("references_disagree")
+                continue
+            res.count("shortcircuit_units")
+            if o == "ok":
+                res.features.add("shortcircuit:%s:%s" % (form, where))
+                continue
+            key = "%s:short-circuit:form=%s:in=%s" % (cat(o), form, where)
+            res.features.add("failure:" + key)
+            res.violation(key, witness="\n".join(lines), expected=exp,
+                          replay_case=dict(id="w", kind="text", key=key, text="\n".join(lines) + "\n"))
+    res.sample = dict(family="shortcircuit", text="\n".join(secs[3][1]))
+
+
+# ---------------------------------------------------------------------------
 # cases
 # ---------------------------------------------------------------------------
 
@@ -896,6 +959,8 @@ def _run_case(ctx, case):
         run_text(ctx, case, res)
     elif kind == "paste":
         run_paste(ctx, case, res)
+    elif kind == "shortcircuit":
+        run_shortcircuit(ctx, case, res)
     else:
         raise core.HarnessError("unknown case kind " + str(kind))
     return res
@@ -936,7 +1001,8 @@ def main(chk):
         "g++ 12 -E -P -std=c++2b is the authority for which groups survive; the generator's model must agree",
         "both preprocessors are sequential, so a batch file of 100 independent units equals its members; a mismatching "
         "unit is re-run alone before it is reported",
-        "conditions are restricted to int-range values without division by zero (C15's territory)",
+        "conditions are int-range; a division by zero occurs only in operands that are not evaluated (|| && ?:), which "
+        "is well-formed; an evaluated one is C15's territory",
     ]
     Dx = chk.pick(6, 8)
     Ds = chk.pick(4, 5)
@@ -946,6 +1012,7 @@ def main(chk):
     for i, pt in enumerate(parts(Ds, 2)):
         cases.append(dict(id="s%d" % i, kind="side", D=Ds, part=pt))
     cases.append(dict(id="p0", kind="paste"))
+    cases.append(dict(id="sc0", kind="shortcircuit"))
     nr = chk.pick(1600, 4000)
     for i in range(nr):
         prof = {}
